@@ -85,7 +85,10 @@ func (p *parser) Parse(objDump string) ([]Syscall, error) {
 
 		// Find the start of a function.
 		if strings.HasPrefix(line, functionMarker) {
-			function = line[5:]
+			function = ""
+			if len(line) > len(functionMarker) {
+				function = line[len(functionMarker)+1:]
+			}
 			instructions = instructions[:0]
 			continue
 		}
@@ -113,8 +116,8 @@ func (p *parser) Parse(objDump string) ([]Syscall, error) {
 		syscalls = append(syscalls, *syscall)
 	}
 
-	if s.Err() != nil {
-		return nil, err
+	if err := s.Err(); err != nil {
+		return nil, fmt.Errorf("failed to read objdump file: %v", err)
 	}
 
 	return syscalls, nil
@@ -204,6 +207,21 @@ var (
 	x86_64RawSyscallRegex = regexp.MustCompile(`MOV[A-Z]? \$(.+), (?:AX|BP)`)
 )
 
+// newSyscall returns a Syscall with the location and function taken from
+// the fields of a disassembly line (location, address, opcode bytes,
+// instruction). Lines with fewer fields leave them empty.
+func newSyscall(line string) *Syscall {
+	s := &Syscall{}
+	fields := strings.Fields(line)
+	if len(fields) > 0 {
+		s.Location = fields[0]
+	}
+	if len(fields) > 3 {
+		s.Function = strings.Join(fields[3:], " ")
+	}
+	return s
+}
+
 func parseX86_64(p *parser, line, caller string, instructions []string) (*Syscall, error) {
 	var m *regexp.Regexp
 	if p.isRawSyscall(line) && !isSyscallFunction(caller) {
@@ -213,13 +231,10 @@ func parseX86_64(p *parser, line, caller string, instructions []string) (*Syscal
 		// syscall found in cgo binaries.
 		if inst := lastInstruction(instructions); inst != "" {
 			if strings.Contains(inst, "XORL AX, AX") {
-				fields := strings.Fields(line)
-				return &Syscall{
-					Location: fields[0],
-					Function: strings.Join(fields[3:], " "),
-					Num:      0,
-					Assembly: "XORL AX, AX",
-				}, nil
+				s := newSyscall(line)
+				s.Num = 0
+				s.Assembly = "XORL AX, AX"
+				return s, nil
 			}
 		}
 	} else if p.isFunctionCall(line) && isSyscallFunction(line) {
@@ -230,11 +245,7 @@ func parseX86_64(p *parser, line, caller string, instructions []string) (*Syscal
 		return nil, nil
 	}
 
-	fields := strings.Fields(line)
-	s := &Syscall{
-		Location: fields[0],
-		Function: strings.Join(fields[3:], " "),
-	}
+	s := newSyscall(line)
 	if err := findSyscallNum(instructions, s, m); err != nil {
 		return nil, fmt.Errorf("failed to extract syscall from '%v': %v",
 			strings.TrimSpace(line), err)
